@@ -9,6 +9,8 @@
 //	               the client's proto.ColDate;
 //	--mode protos  the label lists built by the Datadog / Elasticsearch / OTLP-logs / InfluxDB-metric decoders,
 //	               in several wire orders and under FingerPrintType = Bernstein;
+//	--mode chunks  the size rule of the mid-request flush at the parser: bodies with log lines of chosen lengths, every
+//	               ParserResponse (chunk) with its series rows and samples;
 //	--mode djb     pairs of label sets under both fingerprint types (--mode djbsearch: birthday search for two label
 //	               sets whose 32-bit Bernstein fingerprints collide);
 //	--mode keys    the key serializer of the production announcement cache on pairs of 64-bit keys.
@@ -27,7 +29,7 @@ import (
 )
 
 func main() {
-	mode := flag.String("mode", "labels", "labels | hist | dates | keys | protos | djb | djbsearch")
+	mode := flag.String("mode", "labels", "labels | hist | dates | keys | protos | chunks | djb | djbsearch")
 	f := hx.ParseFlags()
 	config.Cloki = clconfig.New(clconfig.CLOKI_WRITER, nil, "", "")
 	out := hx.OpenOut(f.Out)
@@ -43,6 +45,8 @@ func main() {
 		runKeys(f, out)
 	case "protos":
 		runProtos(f, out)
+	case "chunks":
+		runChunks(f, out)
 	case "djb":
 		runDjb(f, out, false)
 	case "djbsearch":
